@@ -26,11 +26,13 @@ SPEC = {
                 "enter as an abstract law dec(enc t) = t (Formats.v's C04 theorems are over its own pdata type; not instantiated here) and are "
                 "sampled by the oracle. Open findings: F34 (key file named below the root), F35 (include field holding a path) -- field kinds "
                 "outside Config.v, classified by the oracle only; F36 (required field unset inside a disabled feature) and F50 (validate() never "
-                "descends into list items) -- reproduced by the model (refuted witnesses). No axioms.",
+                "descends into list items) -- reproduced by the model (refuted witnesses); F53 (a typed dict with an int/float/bool key field "
+                "renders non-string keys into the tree) -- plain-data clause of the oracle. No axioms.",
         "design_ref": "DESIGN.md section 6 C02"},
     "streams": ["roundtrip"],
     "witnesses": ["F1", "F14", "F41"],
-    "rule": "deterministic matrix (one case per persistent field type and container kind x every format/option, the finding regions F34/F35/F36/F50, "
+    "rule": "deterministic matrix (one case per persistent field type and container kind x every format/option, typed dicts with binary (hex/base64) and "
+            "integer KEY fields at the root / nested / in list items, the finding regions F34/F35/F36/F50/F53, "
             "virtual/method fields, normalisation cases) plus seeded random schemas (depth <= 3, lists of schemas, config types, dynamic) with "
             "states reached by random valid assignments; cases that fit Config.v's vocabulary (int/str/bool/flag/any leaves, sub-schemas, lists "
             "of configurations, validators) reach their state by a configops history and are also evaluated by the model; non-trivial = at least "
